@@ -1,2 +1,3 @@
 import Props.C03
 import Props.C07
+import Props.C08
